@@ -427,6 +427,22 @@ def glue_corpus():
     add("SfLA with CAD and rate 1", T(H, buy, R(act="SfLA", td="2020-07-02", sd="2020-07-02", sh="1", aps="0.1", cur="CAD", fx="1")))
     add("RoC with shares", T(H, buy, R(act="RoC", td="2020-07-01", sd="2020-07-01", sh="3", aps="0.1")))
     add("RoC in USD", T(H, buy, R(act="RoC", td="2020-07-01", sd="2020-07-01", sh="", aps="0.1", cur="USD", fx="1.25")))
+    # conversion errors of the less common actions (branches line coverage showed no case reached)
+    add("RoC without an amount", T(H, buy, R(act="RoC", td="2020-07-01", sd="2020-07-01", sh="", aps="")))
+    add("RoC with a negative amount", T(H, buy, R(act="RoC", td="2020-07-01", sd="2020-07-01", sh="", aps="-0.10")))
+    add("RoC with amount zero", T(H, buy, R(act="RoC", td="2020-07-01", sd="2020-07-01", sh="", aps="0")))
+    add("SfLA without an amount", T(H, buy, R(act="SfLA", td="2020-07-02", sd="2020-07-02", sh="1", aps="")))
+    add("SfLA without shares", T(H, buy, R(act="SfLA", td="2020-07-02", sd="2020-07-02", sh="", aps="0.1")))
+    add("SfLA with amount zero", T(H, buy, R(act="SfLA", td="2020-07-02", sd="2020-07-02", sh="1", aps="0")))
+    add("SfLA with a negative amount", T(H, buy, R(act="SfLA", td="2020-07-02", sd="2020-07-02", sh="1", aps="-0.1")))
+    add("SfLA with zero shares", T(H, buy, R(act="SfLA", td="2020-07-02", sd="2020-07-02", sh="0", aps="0.1")))
+    add("a security whose only row is a split for all", T(H, buy, R(sec="ONLYSPLIT", act="Split", td="2020-05-01", sd="2020-05-01", sh="", aps="", ratio="2-for-1")))
+    add("a security whose only rows are splits for all, with an opening position",
+        T(H, R(sec="ONLYSPLIT", act="Split", td="2020-05-01", sd="2020-05-01", sh="", aps="", ratio="2-for-1"),
+          R(sec="ONLYSPLIT", act="Split", td="2020-06-01", sd="2020-06-01", sh="", aps="", ratio="3-for-1")),
+        {"ONLYSPLIT": (D(7), D(700, 2))})
+    add("buy with zero shares / zero price / negative price",
+        [T(H, R(sh="0")), T(H, R(aps="0")), T(H, R(aps="-1"))])
     add("numbers: plus sign, leading dot, trailing dot, many digits",
         T(H, R(sh="+10", aps=".5", com="1."), R(td="2020-03-03", sd="2020-03-05", sh="0.00000001", aps="123456789.123456789123456789")))
     add("numbers: negative commission", T(H, R(com="-1")))
